@@ -44,12 +44,17 @@ def documents(draw, wild=False):
                 docs.append(('+'.join(ops), j))
         if draw(st.integers(0, 2)) == 0:
             docs.append(('arbitrary', draw(jsonmut.arbitrary_json())))
-        if draw(st.booleans()):
-            # a window of the exhaustive single-key edits of the pristine document
+        if draw(st.integers(0, 9)) < 7:
+            # the exhaustive single-key edits of the pristine document: those that remove or null a
+            # nested object (a struct- or union-valued member) first, then a window of the rest
             sweep = jsonmut.single_key_edits(base)
             if sweep:
-                at = draw(st.integers(0, len(sweep) - 1))
-                docs += [sweep[(at + k) % len(sweep)] for k in range(min(len(sweep), 12))]
+                objs = [e for e in sweep if e[0].endswith(':object') and not e[0].startswith('rename')]
+                rest = [e for e in sweep if e not in objs]
+                docs += objs[:8]
+                if rest:
+                    at = draw(st.integers(0, len(rest) - 1))
+                    docs += [rest[(at + k) % len(rest)] for k in range(min(len(rest), 10))]
         items.append((key, t, v, docs))
     return {'api': api, 'items': items}
 
